@@ -19,8 +19,13 @@
 (*  * floating kinds carry dyadic rationals k/8 as the integer k (exact in *)
 (*    float for |k| < 2^24, exact in double for every 32-bit k): the check *)
 (*    is about transport, not arithmetic;                                  *)
-(*  * strings are [t, n]: entry t of a 4-entry table (the renderer has the *)
-(*    text), followed by "#" and the decimal number n when n >= 0;         *)
+(*  * strings are [t, n]: entry t of a 6-entry table (the renderer has the *)
+(*    text), followed by "#" and the decimal number n when n >= 0.  Entry  *)
+(*    4 is UTF-8 multibyte text, entry 5 contains an embedded NUL followed *)
+(*    by more data ("a b\0tail", i.e. entry 1 up to the NUL).  A C string  *)
+(*    (kind cstr) cannot carry a NUL: cstr values use entries 0..4 only.   *)
+(*    What a std::string looks like to a caller that receives it as a      *)
+(*    NUL-terminated char * (the C back-end) is CView: cut at the NUL;     *)
 (*  * objects are object ids (0 = null pointer).                           *)
 (***************************************************************************)
 EXTENDS Integers, Sequences, FiniteSets, TLC
@@ -47,7 +52,11 @@ KindIdx(k) == CHOOSE i \in 1..Len(KindSeq) : KindSeq[i] = k
 
 EnumVals == <<0, 5, 70000>>       \* enum En { e0, e1 = 5, e2 = 70000 }
 Str(t) == [t |-> t, n |-> -1]
-NStrings == 4                     \* "", "a b", a 200-byte string, a string with quote and backslash
+NStrings == 6                     \* "", "a b", 200 bytes, quote and backslash, UTF-8 multibyte, "a b\0tail"
+NCStrings == 5                    \* entries a C string can be
+NulIdx == 5
+\* a std::string received through a NUL-terminated char *: entry 5 is entry 1 followed by NUL and more
+CView(v) == IF v.t = NulIdx THEN Str(1) ELSE v
 
 (* boundary values of each kind *)
 Bnd(k) ==
@@ -65,7 +74,8 @@ Bnd(k) ==
     [] k = "f64"  -> <<0, 1, -1, 16777217, -16777217, MaxInt, MinInt>>   \* 2^24+1 is not a float
     [] k = "bool" -> <<0, 1>>
     [] k = "enum" -> EnumVals
-    [] k \in StrKinds -> <<Str(0), Str(1), Str(2), Str(3)>>
+    [] k = "cstr" -> <<Str(0), Str(1), Str(2), Str(3), Str(4)>>
+    [] k = "string" -> <<Str(0), Str(1), Str(2), Str(3), Str(4), Str(5)>>
 
 InRange(k, v) ==
   CASE k = "i8"   -> v \in -128..127
@@ -77,7 +87,8 @@ InRange(k, v) ==
     [] k = "f32"  -> v > -16777216 /\ v < 16777216
     [] k = "bool" -> v \in {0, 1}
     [] k = "enum" -> \E i \in 1..Len(EnumVals) : EnumVals[i] = v
-    [] k \in StrKinds -> v.t \in 0..(NStrings - 1) /\ v.n >= -1 /\ v.n < 100000
+    [] k = "cstr" -> v.t \in 0..(NCStrings - 1) /\ v.n >= -1 /\ v.n < 100000
+    [] k = "string" -> v.t \in 0..(NStrings - 1) /\ v.n >= -1 /\ v.n < 100000
     [] k \in ObjKinds -> v >= 0
     [] k = "void" -> v = 0
 
@@ -171,13 +182,9 @@ WellFormedSig(s) ==
 CallType(k) == IF k \in {"objRef", "objVal", "constObjRef"} THEN "obj" ELSE k
 CallSig(s, k) == [i \in 1..(NP(s) - k) |-> CallType(s.ps[i])]
 CallSigs(s) == {CallSig(s, k) : k \in 0..s.nd}
-(* the type a wrapper parameter has in the database: object pointers, references and values all become
-   K0 *, C strings and std::string both become the atomic string.  The database describes a wrapper by its
-   parameter types only, so two overloads whose wrappers have the same parameter types cannot be told apart
-   through it ("the variant named in the wrapper's database entry" is not defined): outside the domain. *)
-WrapType(k) == CASE k \in {"objPtr", "objRef", "objVal"} -> "pK0" [] k = "constObjRef" -> "pcK0"
-                 [] k \in StrKinds -> "str" [] OTHER -> k
-WrapSigs(s) == {[i \in 1..(NP(s) - k) |-> WrapType(s.ps[i])] : k \in 0..s.nd}
+\* Overloads whose wrappers have the same parameter TYPES in the database (a K0 pointer and a K0 by value,
+\* a C string and a std::string) are told apart by the parameter NAMES the database records: the renderer
+\* names every parameter after its position and kind.
 
 \* two signatures that would be declared under one C++ name in one scope
 OpName(s) == IF s.fk \in {"opIndex", "opCall", "opAsg", "opEq", "ctor"} THEN s.fk
@@ -191,7 +198,7 @@ SameName(a, b) ==
 Compatible(a, b) ==
   SameName(a, b) =>
     \* (a const and a non-const member function may share a parameter list: they differ in `this`)
-    /\ ((CallSigs(a) \cap CallSigs(b) = {} /\ WrapSigs(a) \cap WrapSigs(b) = {}) \/ {a.fk, b.fk} = {"method", "cmethod"})
+    /\ (CallSigs(a) \cap CallSigs(b) = {} \/ {a.fk, b.fk} = {"method", "cmethod"})
     /\ a.fk # "opCast"                                    \* one conversion function per target type
     \* a static and a non-static member function cannot be overloaded on the same parameter list; keep the
     \* flavours of one name equal except for method / const method
@@ -212,7 +219,12 @@ EffArgs(w, args) == [i \in 1..NP(w.sig) |-> IF i <= Len(args) THEN args[i] ELSE 
 (* Sem *)
 H32(p) == ((p \div 65536) % 65536) * 7 + (p % 65536) * 13
 H64(v) == (H32(v[1]) * 3 + H32(v[2])) % 1000003
-K0St(heap, o) == IF o = 0 THEN 40000 ELSE heap[o].st
+(* The K0 part of an object owns a payload with move semantics (a heap-allocated std::string tag, tg is the
+   number it spells); whoever looks at the K0 part sees st and the payload together.  A moved-from object
+   would show the empty payload. *)
+TgMod == 1000
+K0Part(obj) == (obj.st + 7 * (obj.tg + 1)) % StMod
+K0St(heap, o) == IF o = 0 THEN 40000 ELSE K0Part(heap[o])
 H(k, v, heap) ==
   CASE k \in Int32Kinds \cup FloatKinds \cup {"enum"} -> H32(v)
     [] k \in Int64Kinds -> H64(v)
@@ -244,29 +256,32 @@ Encode(k, m, cands) ==
     [] k = "f32"  -> BndOr(k, m, (m % 16777216) - 8388608)
     [] k = "bool" -> m % 2
     [] k = "enum" -> EnumVals[(m % 3) + 1]
-    [] k \in StrKinds -> [t |-> m % NStrings, n |-> m % 100000]
+    [] k = "cstr" -> [t |-> m % NCStrings, n |-> m % 100000]
+    [] k = "string" -> [t |-> m % NStrings, n |-> m % 100000]
     [] k = "objPtr" -> IF m % 5 = 0 THEN 0 ELSE cands[(m % Len(cands)) + 1]
     [] k \in {"objRef", "constObjRef"} -> cands[(m % Len(cands)) + 1]
     [] k = "objVal" -> m % StMod        \* the state of the returned temporary
     [] k = "void" -> 0
 
 \* the part of an object a member function of class c works on
-ThisState(c, obj) == CASE c = "KB" -> obj.bst [] c = "Mix" -> (obj.st + 7 * obj.bst) % StMod [] OTHER -> obj.st
+ThisState(c, obj) == CASE c = "KB" -> obj.bst [] c = "Mix" -> (K0Part(obj) + 7 * obj.bst) % StMod [] OTHER -> K0Part(obj)
 Bump(c, obj, w) ==
   CASE c = "KB" -> [obj EXCEPT !.bst = (@ + w) % StMod]
     [] c = "Mix" -> [obj EXCEPT !.st = (@ + w) % StMod, !.bst = (@ + 1) % StMod]
     [] OTHER -> [obj EXCEPT !.st = (@ + w) % StMod]
 
-\* non-const object arguments are modified through the pointer / reference, in parameter order
+\* non-const object arguments are modified (state and payload) through the pointer / reference, in parameter
+\* order; a by-value parameter is the callee's own copy: it modifies that copy, the caller's object stays
 RECURSIVE TouchArgs(_, _, _, _)
 TouchArgs(ps, args, heap, i) ==
   IF i > Len(ps) THEN heap
   ELSE IF ps[i] \in {"objPtr", "objRef"} /\ args[i] # 0
-       THEN TouchArgs(ps, args, [heap EXCEPT ![args[i]].st = (@ + 3) % StMod], i + 1)
+       THEN TouchArgs(ps, args, [heap EXCEPT ![args[i]].st = (@ + 3) % StMod, ![args[i]].tg = (@ + 1) % TgMod], i + 1)
        ELSE TouchArgs(ps, args, heap, i + 1)
 
 NewObj(c, m) == [cls |-> c, live |-> TRUE,
                  st |-> IF HasK0(c) THEN m % StMod ELSE 0,
+                 tg |-> IF HasK0(c) THEN (m \div 7) % TgMod ELSE 0,
                  bst |-> IF HasKB(c) THEN (m \div StMod) % StMod ELSE 0,
                  d |-> [k \in DataKinds |-> InitData(k)]]
 
